@@ -387,13 +387,13 @@ func checkHTMLCase(res *Result, hc *htmlCase, idx int, seed int64) {
 			npkg++
 		case h == "":
 		default:
-			res.violation(mk("branch", "a frame link starts with another prefix than the specification predicts for this branch", map[string]string{"src": hc.Src, "pkg": hc.Pkg}, h))
-			return
+			// still one of the fixed prefixes (checked above): which documentation / source host
+			// a branch links to is not something C17 speaks about
+			res.drift(mk("branch", "a frame link starts with another fixed prefix than the specification predicts for this branch", map[string]string{"src": hc.Src, "pkg": hc.Pkg}, h))
 		}
 	}
 	if (hc.Src != "" && nsrc == 0) || (hc.Pkg != "" && npkg == 0) {
-		res.violation(mk("branch", "the specification predicts a link that the document does not contain", map[string]string{"src": hc.Src, "pkg": hc.Pkg}, frameHrefs))
-		return
+		res.drift(mk("branch", "the specification predicts a link that the document does not contain", map[string]string{"src": hc.Src, "pkg": hc.Pkg}, frameHrefs))
 	}
 	// completeness: every goroutine / bucket and every frame is in the document
 	for _, role := range []string{"state1", "state2", "a1name", "b1name", "a2name", "b2name", "c1name", "c2name"} {
